@@ -16,6 +16,7 @@ exception is `rejected`; ties, branch cuts, kinks below derivatives and ill-cond
 """
 
 import itertools
+import os
 import random
 import warnings
 
@@ -77,6 +78,9 @@ DERIV_OPS = {"grad", "Div", "curl", "nabla_grad", "nabla_div", "dx", "dxi"}
 COORDS = [k / 8 for k in range(-10, 11) if k]
 
 
+DEBUG = bool(os.environ.get("C24_DEBUG"))
+
+
 class Symbolic(Exception):
     pass
 
@@ -118,7 +122,7 @@ class Judge:
         self.recipe = recipe
         self.x = x
         self.seed = seed
-        self.den = D.Den(pool.field, x)
+        self.den = D.Den(pool.field, x, cplx=pool.cplx)
         self.state = "ok"
         self.why = ""
         self.exp = None
@@ -138,7 +142,7 @@ class Judge:
 
     def pert(self):
         if self._pert is None:
-            d2 = D.Den(self.pool.field, self.x, pert=random.Random(self.seed))
+            d2 = D.Den(self.pool.field, self.x, pert=random.Random(self.seed), cplx=self.pool.cplx)
             try:
                 e2 = d2.ev(self.recipe)
                 self._pert = (D.to_complex(e2.arr), set(d2.flags))
@@ -337,10 +341,12 @@ def observe(ctx, recipe, expr, pool, points, mapping, rng, kinds, record=True, m
 def localise(ctx, recipe, pool, bad, mapping, rng):
     """Smallest sub-recipe whose own value is wrong under the same kind of event at the same point."""
     B = Builder(pool)
-    kind = bad["kind"] if bad["kind"] != "whole" else "call"
+    whole = bad["kind"] == "whole"
     point = [(bad["x"], bad.get("xform", "tuple"))]
     for sub in D.subrecipes(recipe):
         if sub.kind != "val" or sub.op in ("lit",):
+            continue
+        if whole and (not sub.shape or sub.fi):
             continue
         try:
             e = B.b(sub)
@@ -348,11 +354,38 @@ def localise(ctx, recipe, pool, bad, mapping, rng):
             continue
         if not isinstance(e, Expr):
             continue
-        res, _ = observe(ctx, sub, e, pool, point, mapping, rng, [kind] if not sub.fi else ["evaluate"], record=False)
-        wrong = [r for r in res if r[0] == "disagree"]
+        kinds = ["whole"] if whole else ([bad["kind"]] if not sub.fi else ["evaluate"])
+        res, _ = observe(ctx, sub, e, pool, point, mapping, rng, kinds, record=False)
+        wrong = [r for r in res if r[0] in ("disagree", "whole-disagree")]
         if wrong:
             return sub, e, wrong[0][1]
     return None, None, None
+
+
+def index_names_inside(n):
+    """All index names occurring anywhere in the recipe (free or bound)."""
+    s = set(n.fi)
+    if n.op in ("getitem",):
+        s |= {c[1] for c in n.a if c[0] == "idx"}
+    if n.op == "dxi":
+        s |= set(n.a)
+    if n.op == "as_tensor_idx":
+        s |= set(n.a[0])
+    for k in n.kids:
+        s |= index_names_inside(k)
+    return s
+
+
+def reuses_bound_index(sub):
+    """Does this node attach an index that is already bound (summed / component-tensor) inside its operand?"""
+    if sub.op == "getitem":
+        mine = {c[1] for c in sub.a if c[0] == "idx"}
+    elif sub.op == "dxi":
+        mine = set(sub.a)
+    else:
+        return False
+    a = sub.kids[0]
+    return bool(mine & (index_names_inside(a) - set(a.fi)))
 
 
 def case(ctx, i, rng):
@@ -383,6 +416,8 @@ def case(ctx, i, rng):
     except Exception as ex:
         ctx.count("build_rejected")
         ctx.covered("build_rejected_with", f"{recipe.op}:{type(ex).__name__}")
+        if DEBUG:
+            print("BUILD-REJECTED", i, type(ex).__name__, ex, "\n   ", D.show(recipe, 500))
         return
     if not isinstance(expr, Expr):
         expr = ufl.as_ufl(expr)
@@ -392,6 +427,8 @@ def case(ctx, i, rng):
         # the declared structure is the subject of C05, not of this property
         ctx.count("declared_structure_differs")
         ctx.covered("declared_structure_differs", recipe.op)
+        if DEBUG:
+            print("STRUCTURE", i, expr.ufl_shape, expr.ufl_free_indices, recipe.shape, recipe.fi, want_fi, "\n   ", D.show(recipe, 500), "\n   ", str(expr)[:300])
         return
     ctx.count("built")
     points = []
@@ -407,8 +444,10 @@ def case(ctx, i, rng):
         ctx.count("values_" + v.replace(":", "_").replace("-", "_"))
         if v == "rejected":
             ctx.covered("rejected_with", f"{info['kind']}:{info['exc']}:{type(expr).__name__}")
-            if info["kind"] != "direct":
-                ctx.covered("rejected_messages", f"{info['exc']}: {info['msg']}")
+            if info["msg"].startswith("Symbolic evaluation of"):
+                ctx.covered("classes_without_evaluate", info["msg"].split()[3])
+            elif info["kind"] != "direct":
+                ctx.covered("raised_by_evaluate", f"{info['exc']}: {info['msg'][:60]}")
         if v == "symbolic":
             ctx.covered("symbolic_results", info["type"])
         if v.startswith("whole-"):
@@ -430,7 +469,9 @@ def case(ctx, i, rng):
             r2, _ = observe(ctx, sub, sube, pool, [(b["x"], b.get("xform", "tuple"))], pm, rng, [kind if not sub.fi else "evaluate"], record=False)
             if r2 and not any(v in ("disagree", "whole-disagree") for v, _ in r2):
                 suffix = "/numpy-typed-mapping-value"
-        key = f"C24/{'whole-value' if whole and sub is recipe else 'wrong-value'}/{cls}{suffix}"
+        if reuses_bound_index(sub):
+            suffix += "/index-also-bound-inside-operand"
+        key = f"C24/{'whole-value' if whole else 'wrong-value'}/{cls}{suffix}"
         ctx.violation(
             key,
             f"{b['kind']} event: {cls} evaluates to {winfo['got']!r}, mathematical value {complex(winfo['expected'])!r} (|diff| {winfo['err']:.3g}) at x={b['x']}",
